@@ -173,7 +173,9 @@ def run(ctx):
     jobs = []
     for idx, im in enumerate(_IMAGES):
         jobs.append((idx, im.fmt, 'cand', ctx.seed, ctx.thorough))
-        if ctx.thorough and len(im.data) <= 1100 and im.fmt != 'vmdk':
+        if len(im.data) <= 1100 and im.fmt != 'vmdk' and (
+                ctx.thorough or idx % 25 == ctx.seed % 25):
+            # every byte position is a cut: all 2^(L-1) chunkings, every prefix
             jobs.append((idx, im.fmt, 'all', ctx.seed, ctx.thorough))
         if idx % (2 if ctx.thorough else 4) == 0 and im.fmt != 'raw':
             jobs.append((idx, 'wrapper', 'cand', ctx.seed, ctx.thorough))
@@ -222,7 +224,8 @@ def run(ctx):
     rep.notes['bounds'] = {'images': len(_IMAGES),
                            'sizes_per_64bit_field': len(sizes64(ctx.seed)),
                            'max_cuts': 64 if ctx.thorough else 44,
-                           'all_positions_up_to_bytes': 1100 if ctx.thorough else 0}
+                           'all_positions_up_to_bytes': 1100,
+                           'all_positions_runs': 'every small image' if ctx.thorough else 'every 25th small image (seed-rotated)'}
     rep.notes['assumptions'] = ['layout builders are a faithful reference of where each format stores its size']
     return rep
 
@@ -232,7 +235,7 @@ def replay(payload):
     data = unpack(payload['image'])
     system = (S.WrapperSystem() if payload['system'] == 'wrapper'
               else S.InspectorSystem(payload['system']))
-    obj, trace = S.replay_path(system, data, payload['path'])
+    obj, trace = S.replay_path(system, data, payload['path'], queries=True)
     if payload['kind'] == 'T2':
         v = trace[-1].get('verdict') if trace else None
         if payload['system'] == 'wrapper':
